@@ -6,7 +6,7 @@ L = os.path.join(ROOT, "lean")
 AREAS = [("Bdd", "bdd"), ("Bcdd", "bcdd"), ("Zbdd", "zbdd"), ("HashTbl", "tbl"), ("Mtbdd", "mtbdd"), ("Tdd", "tdd"),
          ("Num", "nat"), ("Dddmp", "dddmp"), ("VarNames", "names"), ("Circuit", "circ"), ("Ffi", "capi")]
 have = [(a, p) for a, p in AREAS if os.path.exists(os.path.join(L, "OxiddModel", a, "Driver.lean"))]
-EXTRA_PROTOS = [("capi-fixed", "OxiddModel.Ffi.protoFixed")] if any(a == "Ffi" for a, _ in have) else []
+EXTRA_PROTOS = [("capi-before-fix", "OxiddModel.Ffi.protoBeforeFix")] if any(a == "Ffi" for a, _ in have) else []
 PROTO_NAME = {"Num": "OxiddModel.Num.Driver.proto"}
 src = "import OxiddModel.Util.Proto\n" + "".join(f"import OxiddModel.{a}.Driver\n" for a, _ in have) + '''
 open OxiddModel
